@@ -323,6 +323,125 @@ def judge(run, sim, msgs, nstart, failed, witness, stats):
                           (sid, [t.hex() for t in want], [t.hex() for t in got]))
 
 
+def tcp_case(exe, r, run, stats, witness):
+    """messages submitted on a TCP (or WebSocket) client session before the peer's CSM has
+    arrived are held; the session then comes up (CSM delivered: all of them leave in submission
+    order, once each, followed by later submissions) or fails (connection closed by the peer,
+    or no CSM within the CSM timeout: one NACK for each, nothing transmitted)"""
+    proto = r.choice(["tcp", "tcp", "ws"])
+    n_before = r.choice([1, 2, 3, 5, 8])
+    n_after = r.choice([0, 1, 3])
+    fate = r.choice(["csm", "csm", "csm", "close", "release"])
+    t_fate = r.choice([0, 1, 40, 600])
+    w = world.World(exe, seed=r.getrandbits(30))
+    witness["script"] = w.script
+    witness["tcp"] = {"proto": proto, "before": n_before, "after": n_after, "fate": fate}
+    log = []
+    evs = w.cmd("node 0")
+    evs = w.cmd("sess 0 0 %s 10.0.88.8:%d" % (proto, 80 if proto == "ws" else 5683))
+    log += evs
+    conn = [e["conn"] for e in evs if e["e"] == "tcp_connect"]
+    if not conn:
+        raise common.Inconclusive("no connection")
+    conn = conn[0]
+    if proto == "ws":
+        import base64
+        import hashlib
+        reqb = b"".join(bytes.fromhex(e["b"]) for e in evs if e["e"] == "swrite")
+        key = [ln.split(b":", 1)[1].strip() for ln in reqb.split(b"\r\n")
+               if ln.lower().startswith(b"sec-websocket-key:")][0]
+        acc = base64.b64encode(hashlib.sha1(key + b"258EAFA5-E914-47DA-95CA-C5AB0DC85B11").digest())
+        log += w.cmd("stream %d 1 %s" % (conn, (
+            b"HTTP/1.1 101 Switching Protocols\r\nUpgrade: websocket\r\nConnection: Upgrade\r\n"
+            b"Sec-WebSocket-Accept: " + acc + b"\r\n\r\n").hex()))
+    toks = []
+    for k in range(n_before):
+        tok = bytes([0xC8, k])
+        toks.append(tok)
+        log += w.cmd("send 0 0 type=%d code=1 token=%s opts=11=61" % (r.choice([0, 0, 1]), tok.hex()))
+        if r.random() < 0.3:
+            log += w.cmd("advance %d" % r.choice([1, 5, 50]))
+            log += w.cmd("prepare 0")
+    if t_fate:
+        log += w.cmd("advance %d" % t_fate)
+        log += w.cmd("prepare 0")
+    csm = cw.encode(cw.msg(0xE1), "tcp" if proto == "tcp" else "ws")
+    if proto == "ws":
+        csm = cw.ws_frame(csm)
+    if fate == "csm":
+        log += w.cmd("stream %d 1 %s" % (conn, csm.hex()))
+    elif fate == "close":
+        log += w.cmd("stream_close %d 1" % conn)
+    else:
+        # no CSM comes (a client session waits for it without a limit of its own): after 10 s
+        # the application gives the session up
+        for _ in range(40):
+            log += w.cmd("advance 250")
+            log += w.cmd("prepare 0")
+        log += w.cmd("release 0 0")
+    log += w.cmd("prepare 0")
+    after = []
+    if fate == "csm":
+        for k in range(n_after):
+            tok = bytes([0xC9, k])
+            after.append(tok)
+            log += w.cmd("send 0 0 type=0 code=1 token=%s opts=11=61" % tok.hex())
+            log += w.cmd("prepare 0")
+    log += w.cmd("advance 5000")
+    log += w.cmd("prepare 0")
+    # what left the client, in order
+    out = b"".join(bytes.fromhex(e["b"]) for e in log if e["e"] == "swrite" and e.get("conn") == conn)
+    if proto == "ws":
+        hs_end = out.find(b"\r\n\r\n")
+        frames, _rest = cw.ws_parse_frames(out[hs_end + 4:] if hs_end >= 0 else b"")
+        raws = [pl for _fin, op, pl in frames if op == 2]
+    else:
+        raws, _rest = cw.split_tcp_stream(out)
+    sent_toks = []
+    for raw in raws:
+        try:
+            m = cw.decode(raw, "tcp" if proto == "tcp" else "ws")
+        except Exception:
+            continue
+        if 1 <= m["code"] <= 31:
+            sent_toks.append(m["token"])
+    nacks = {}
+    for e in log:
+        if e["e"] == "nack" and e.get("tok"):
+            nacks[e["tok"]] = nacks.get(e["tok"], 0) + 1
+    refused = set()
+    # (a submission the API refused is not one the library took on)
+    pend = None
+    for e in log:
+        if e["e"] == "sending":
+            pend = e.get("tok")
+        elif e["e"] == "sent" and e.get("mid", 0) < 0 and pend:
+            refused.add(bytes.fromhex(pend))
+    held = [t for t in toks if t not in refused]
+    stats["tcp_cases"] = stats.get("tcp_cases", 0) + 1
+    stats["tcp_held"] = stats.get("tcp_held", 0) + len(held)
+    loc = "%s/%s" % (proto, fate)
+    if fate == "csm":
+        want = held + [t for t in after if t not in refused]
+        if sent_toks != want:
+            run.violation("held-messages-out-of-order-or-lost/before-csm/%s" % proto, witness,
+                          "submitted before/after the peer's CSM: %r; left the client: %r" %
+                          ([t.hex() for t in want], [t.hex() for t in sent_toks]))
+        if any(nacks.get(t.hex()) for t in want):
+            run.violation("transmitted-and-nacked/%s" % loc, witness, "NACKs %r" % nacks)
+        stats["tcp_established"] = stats.get("tcp_established", 0) + 1
+    else:
+        if any(t in sent_toks for t in held):
+            run.violation("held-message-transmitted-after-session-failure/%s" % loc, witness,
+                          "left the client: %r" % [t.hex() for t in sent_toks])
+        bad = [(t.hex(), nacks.get(t.hex(), 0)) for t in held if nacks.get(t.hex(), 0) != 1]
+        if bad:
+            run.violation("held-message-not-nacked-exactly-once-on-failure/%s" % loc, witness,
+                          "held when the session failed (%s): (token, NACK calls) %r" % (fate, bad))
+        stats["tcp_failed"] = stats.get("tcp_failed", 0) + 1
+    return w, ("tcp", proto, n_before, n_after, fate, t_fate)
+
+
 def work(job):
     items, exe = job
     run = common.Run("C08", "quick", "exploration")
@@ -335,6 +454,12 @@ def work(job):
         w = None
         witness = {"item": it, "seed": common.seed()}
         try:
+            if it % 8 == 7:
+                w, sig = tcp_case(exe, r, run, stats, witness)
+                world.teardown_check(run, "C08", w, witness)
+                sigs.add(sig)
+                n += 1
+                continue
             w, sim, msgs, nstart, failed, sig = scenario(exe, r)
             witness["script"] = [x for x in w.script if not x.startswith(("peek", "prepare"))][-300:]
             witness["nstart"] = nstart
@@ -362,7 +487,10 @@ def main(tier):
                 "received copy with probability p after delays 0..3.5 s (so retransmissions and "
                 "duplicate ACKs interleave with new submissions); optional application-level "
                 "session failure early / mid-burst; window, order and conservation judged over "
-                "the trace; distinct_nontrivial = distinct scenario signatures")
+                "the trace; one case in eight: a TCP or WebSocket client session on which 1..8 "
+                "messages are submitted before the peer's CSM, which then arrives, or the peer "
+                "closes, or no CSM comes and the application releases the session; distinct_nontrivial = distinct scenario "
+                "signatures")
     run.assumptions = ["the peer only acknowledges/resets what it received (generator)",
                        "in-flight = first transmitted and not yet acked/reset/given up, "
                        "evaluated in event order"]
@@ -393,4 +521,6 @@ def main(tier):
     run.require("submitted_from_nack_handler", stats.get("submitted_from_nack_handler", 0), 20)
     run.require("handler_submission_held", stats.get("handler_submission_held", 0), 20)
     run.require("failed_writes", stats.get("failed_writes", 0), 50)
+    run.require("tcp_established", stats.get("tcp_established", 0), 40)
+    run.require("tcp_failed", stats.get("tcp_failed", 0), 20)
     return run.finish()
